@@ -171,6 +171,8 @@ func main() {
 		}
 	case "schema":
 		runSchema()
+	case "stable":
+		runStable(readCases(*inputs))
 	default:
 		fatal(fmt.Errorf("unknown command %q", cmd))
 	}
